@@ -3,6 +3,7 @@ package props
 import (
 	"fmt"
 
+	"verifsim/gen"
 	"verifsim/harness"
 	"verifsim/world"
 )
@@ -216,6 +217,18 @@ func init() {
 			},
 			Run: func(c *Ctx) {
 				o := drawOp(c, c.L("gen"), true)
+				if y := c.L("gen:y"); y.Chance(1, 16) {
+					// malformed box trees in which error handling decides what is read next (an iref box
+					// that declares more than meta has left, with a child that declares more than iref):
+					// error handling is where log-level guards sit
+					tiff := gen.BuildTIFF(y, gen.DrawRecord(y, 60), gen.LayoutOpts{Canonical: true}).Encode(y.Bool()).Bytes
+					h := gen.DrawHEIFOpts(y, tiff, y.Bool(), gen.HEIFOpts{Iref: true, IrefBad: true, Brands: y.Intn(3)})
+					o = &opCase{data: h.Bytes, name: "gen:HEIF(iref overstated)", fmap: h.Map, trunc: -1,
+						e: harness.EntryByName([]string{"isobmff.Reader", "DecodeHeif", "Decode"}[y.Intn(3)])}
+					if y.Bool() {
+						o.data, o.name, o.fmap = gen.AVIFIrefOverstated(tiff, []int{1000, 8, 100000}[y.Intn(3)]), "gen:AVIF(iref overstated)", nil
+					}
+				}
 				cfg := c.L("cfg")
 				level := cfg.Intn(nLv)
 				sink := cfg.Intn(nSk)
